@@ -12,11 +12,17 @@ _curve_cache = {}
 
 
 def curve(name):
-    if name not in _curve_cache:
+    """name of a shipped curve, or {'poly': [[x, y], ...], 'closed': bool} for a rectilinear polygon/polyline"""
+    key = name if isinstance(name, str) else repr(name)
+    if key not in _curve_cache:
         from src import parametrization as P
         with repo.quiet():
-            _curve_cache[name] = getattr(P, name)()
-    return _curve_cache[name]
+            if isinstance(name, str):
+                _curve_cache[key] = getattr(P, name)()
+            else:
+                vs = [np.array([float(x), float(y)]) for x, y in name['poly']]
+                _curve_cache[key] = P.PiecewisePolygon(vs, closed=bool(name['closed']))
+    return _curve_cache[key]
 
 
 class Live:
